@@ -818,6 +818,10 @@ def hashmap_scenarios(rng, count, exhaustive_pairs=True):
             "tuple-negzero": lambda: tup(un("-", lit(0)), lit("a")),
             "tuple-zero": lambda: tup(lit(0), lit("a")),
             "nested": lambda: tup(tup(lit(1)), lit(2)),
+            "pair-21": lambda: tup(lit(2), lit(1)),
+            "pair-12": lambda: tup(lit(1), lit(2)),
+            "triple": lambda: tup(lit(5), lit(6), lit(7)),
+            "pair-strs": lambda: tup(lit("k"), lit("v")),
             "nil": lambda: lit(None),
             "true": lambda: lit(True),
             "class": lambda: b.v("Vec"),
